@@ -212,6 +212,8 @@ def plan(tier, seed):
             fam1 = dict(fam)
             fam1['shape'] = [5, 3, 1]
             P.append({'fam': fam1, 'changes': {k: v for k, v in ADDON_GAIN.items() if k != 'Construction Years'}})
+            # ... and add-ons profitable enough to pay back within the lifetime (the add-on payback line then carries a non-trivial figure)
+            P.append({'fam': fam1, 'changes': {**{k: v for k, v in ADDON_GAIN.items() if k != 'Construction Years'}, 'AddOn Profit Gained 2': '6.5'}})
             fam2 = dict(fam)
             fam2['shape'] = [4, 2, 2]
             P.append({'fam': fam2, 'changes': {k: v for k, v in ADDON_GAIN.items() if k != 'Construction Years'}, 'tag': 'addon-cy2'})
